@@ -30,13 +30,8 @@ pub fn gen_expr(
         }
         Node::Id { .. } => match_id(ast, &None, false, env, ctx, constr),
         Node::Question { left, right } => {
-            constr.add(
-                "question",
-                &Expected::from(left),
-                &Expected::none(left.pos),
-                env,
-            );
-
+            // The default stands in when the left side is undefined; a left side that never is
+            // needs no default, but takes no harm from one either.
             generate(left, env, ctx, constr)?;
             generate(right, env, ctx, constr)?;
             Ok(env.clone())
